@@ -11,7 +11,7 @@ from hypothesis import strategies as st
 from tcv import values
 
 TASK_NAMES = ['a', 'xa', 'b', 'train_x', 'n', 'xn', 'c', 'd', 'ax', 'e', 'g', 'm', 'load_task']
-PATTERN_NAMES = ['p_a', 'p_b', 'p_xa']
+PATTERN_NAMES = ['p_a', 'p_b', 'p_xa', 'p_ab']   # ('p_ab' extends 'p_a': patterns must match whole names)
 GROUPS = [None, None, 'g', 'xg', 'g:h']
 MODULE_NAMES = ['alpha', 'beta', 'gamma', 'delta']
 REL_NS = ['', '', '', 'm', 'train', 'n', 'xn', 'm::k', 'g']   # ('g' is also a task GROUP name)
